@@ -720,4 +720,39 @@ theorem requests_auth_other_order_full_false :
     dlookup authKey (transportExtra .authThenSerializer (some [("data".toList, "x")]) (some "basic")) = none ∧
     dlookup authKey (transportExtra .authThenSerializer none (some "basic")) = some "basic" := by decide
 
+
+/-! ### the session shared by concurrent workers -/
+
+private theorem filterMap_field_set (cfg : List Nat) : (cfg.map SessStep.set).filterMap SessStep.field? = cfg := by
+  induction cfg with
+  | nil => rfl
+  | cons a l ih => simp [SessStep.field?, ih]
+
+private theorem publish_not_in_sets (cfg : List Nat) (t : Nat) : ((cfg.map SessStep.set).take t).contains .publish = false := by
+  induction cfg generalizing t with
+  | nil => simp
+  | cons a l ih =>
+    cases t with
+    | zero => simp
+    | succ n => simpa [List.contains_cons] using ih n
+
+/-- **Every worker sends its requests through a fully configured session** — whatever the moment at which a second
+    worker looks the session up while the first one is still building it (all interleavings of the look-up with the
+    builder's steps, any set of configured settings): the session is published only after its last setting. -/
+theorem worker_session_configured (cfg : List Nat) (t : Nat) : workerSession cfg (publishLast cfg) t = cfg := by
+  unfold workerSession publishedAt sessionFieldsAt publishLast
+  by_cases ht : t ≤ cfg.length
+  · have : (cfg.map SessStep.set ++ [SessStep.publish]).take t = (cfg.map SessStep.set).take t := by
+      rw [List.take_append_of_le_length (by simpa using ht)]
+    rw [this, publish_not_in_sets]
+    simp
+  · have hlen : (cfg.map SessStep.set ++ [SessStep.publish]).length ≤ t := by simp; omega
+    rw [List.take_of_length_le hlen, List.filterMap_append, filterMap_field_set]
+    simp [SessStep.field?]
+
+/-- published before it is configured, the session reaches a worker without the credentials: after the first step the
+    second worker holds a session with none of the configured settings (non-empty configuration) -/
+theorem publish_first_loses_settings (c : Nat) (cfg : List Nat) : workerSession (c :: cfg) (publishFirst (c :: cfg)) 1 = [] := by
+  simp [workerSession, publishedAt, sessionFieldsAt, publishFirst, SessStep.field?]
+
 end SV.Props.C14
